@@ -6,6 +6,7 @@ import (
 	"net/http"
 	"sync"
 	"sync/atomic"
+	"time"
 
 	"github.com/robbyt/go-supervisor/verif_harness/internal/director"
 )
@@ -23,6 +24,7 @@ type env struct {
 	nextInst   int      // instances are numbered at (successful) creation
 	servers    []*mockServer
 	releaseAll bool
+	deadline   time.Duration // readiness deadline configured for the scenario
 }
 
 func (e *env) emit(format string, args ...any) {
@@ -45,6 +47,8 @@ type mockServer struct {
 	stopped  chan struct{}
 	stopOnce sync.Once
 	blocked  atomic.Bool
+	created  time.Time
+	polls    atomic.Int32 // IsRunning calls
 }
 
 func (m *mockServer) String() string { return fmt.Sprintf("mock[%d]", m.inst) }
@@ -66,6 +70,11 @@ func (m *mockServer) Stop() {
 	if m.env == nil {
 		return
 	}
+	if m.ready == 'r' && m.polls.Load() == 0 && time.Since(m.created) >= m.env.deadline {
+		// a ready server that was never asked IsRunning() before the readiness deadline expired: the
+		// process was stalled for longer than the deadline; the scenario's timing assumption is void
+		m.env.emit("TIMING")
+	}
 	m.env.emit("SC:%d", m.inst)
 	if m.slowStop {
 		m.env.mu.Lock()
@@ -83,7 +92,7 @@ func (m *mockServer) Stop() {
 
 func (m *mockServer) doRelease() { m.relOnce.Do(func() { close(m.release) }) }
 
-func (m *mockServer) IsRunning() bool { return m.ready == 'r' }
+func (m *mockServer) IsRunning() bool { m.polls.Add(1); return m.ready == 'r' }
 
 func (m *mockServer) GetState() string {
 	switch m.ready {
